@@ -86,7 +86,7 @@ class CategoricalClassification:
         # Structure parameter passed, building based on structure
         else:
             ix = 0
-            for data in structure:
+            for data in self._ordered_structure(structure):
 
                 # Data in structure is a tuple of (feature index (integer), feature attributes)
                 if not isinstance(data[0], (list, np.ndarray)):
@@ -165,6 +165,32 @@ class CategoricalClassification:
                     X[i] = x
 
         return X.T
+
+    @staticmethod
+    def _ordered_structure(structure: list | ArrayLike) -> list:
+        """
+        Helper function, flattens the structure into (feature index, feature attributes) pairs ordered by feature index,
+        so that every described feature is generated at its declared column whatever the order of the description
+        :param structure: structure of the dataset
+        :return: list of (feature index, feature attributes) tuples, increasing in feature index
+        """
+
+        described = []
+        for data in structure:
+            if not isinstance(data[0], (list, np.ndarray)):
+                feature_ix, feature_attributes = data
+                described.append((feature_ix, feature_attributes))
+            else:
+                feature_ixs, feature_attributes = data
+                for feature_ix in feature_ixs:
+                    described.append((feature_ix, feature_attributes))
+
+        described.sort(key=lambda feature: feature[0])
+        for previous, current in zip(described, described[1:]):
+            if previous[0] == current[0]:
+                raise ValueError(f'Feature index {current[0]} is described more than once in structure.')
+
+        return described
 
     def _configure_generate_feature(
         self,
